@@ -103,6 +103,60 @@ Definition C01_check (npre nsamp : Z) (ts : tstate) (F0 : Z) (h : list (op * obs
   | None => false
   end.
 
+(* ---- the same judgement without assuming that the source numbers its frames contiguously ----
+   A source may lose frames between blocks (the next block's first frame is then later than the end of the previous
+   one).  The channel keeps ONE stream: AppendSegment re-bases the retained samples on the newest block (documented
+   behaviour, baseline test TestStreamGap).  The judgement therefore locates a record in the sequence of DELIVERED
+   samples: its trigger sample is the one (r_frame - first frame of the block being processed) samples after the
+   block's first sample — negative: that many before it, in the retained data — and
+     - the samples are the contiguous delivered samples G[j-npre, j-npre+nsamp) around it,
+     - the time is block time + (frame - block first frame) * period,
+     - lengths are the configured ones.
+   For a trigger sample that belongs to the block being processed (r_frame >= its first frame) r_frame IS the
+   source's frame number of that sample, gaps or not; for a trigger sample in the retained data it is the source's
+   number whenever no frames were lost in between (in particular for every contiguous source: [excerpt_ok] above). *)
+Record ginfo := mkgi { gi_npre : Z; gi_nsamp : Z; gi_G : list Z; gi_seg : segment; gi_recs : list record }.
+
+Fixpoint annotateG (npre nsamp : Z) (G : list Z) (h : list (op * obs)) : option (list ginfo) :=
+  match h with
+  | [] => Some []
+  | (Block sg, ORecs recs _ _) :: rest =>
+      let G' := G ++ seg_data sg in
+      match annotateG npre nsamp G' rest with
+      | Some gs => Some (mkgi npre nsamp G' sg recs :: gs)
+      | None => None
+      end
+  | (CfgTrig ts, OCfg false) :: rest => annotateG npre nsamp G rest
+  | (CfgLen nsamp' npre', OCfg false) :: rest => annotateG npre' nsamp' G rest
+  | (CfgLen _ _, OCfg true) :: rest => annotateG npre nsamp G rest
+  | _ => None
+  end.
+
+Definition excerpt_okG (g : ginfo) (r : record) : Prop :=
+  let j := zlen (gi_G g) - zlen (seg_data (gi_seg g)) + (r_frame r - seg_first (gi_seg g)) in
+  r_pre r = gi_npre g /\ zlen (r_data r) = gi_nsamp g /\
+  0 <= j - gi_npre g /\ j - gi_npre g + gi_nsamp g <= zlen (gi_G g) /\
+  r_data r = zslice (gi_G g) (j - gi_npre g) (gi_nsamp g) /\
+  r_time r = seg_time (gi_seg g) + (r_frame r - seg_first (gi_seg g)) * seg_period (gi_seg g) /\
+  r_signed r = seg_signed (gi_seg g).
+
+Definition excerpt_okGb (g : ginfo) (r : record) : bool :=
+  let j := zlen (gi_G g) - zlen (seg_data (gi_seg g)) + (r_frame r - seg_first (gi_seg g)) in
+  (r_pre r =? gi_npre g) && (zlen (r_data r) =? gi_nsamp g) &&
+  (0 <=? j - gi_npre g) && (j - gi_npre g + gi_nsamp g <=? zlen (gi_G g)) &&
+  zlist_eqb (r_data r) (zslice (gi_G g) (j - gi_npre g) (gi_nsamp g)) &&
+  (r_time r =? seg_time (gi_seg g) + (r_frame r - seg_first (gi_seg g)) * seg_period (gi_seg g)) &&
+  Bool.eqb (r_signed r) (seg_signed (gi_seg g)).
+
+Definition C01G_holds (npre nsamp : Z) (h : list (op * obs)) : Prop :=
+  exists gs, annotateG npre nsamp [] h = Some gs /\ forall g r, In g gs -> In r (gi_recs g) -> excerpt_okG g r.
+
+Definition C01G_check (npre nsamp : Z) (h : list (op * obs)) : bool :=
+  match annotateG npre nsamp [] h with
+  | Some gs => forallb (fun g => forallb (excerpt_okGb g) (gi_recs g)) gs
+  | None => false
+  end.
+
 (* ---- premises on the inputs (what a source and the RPC layer guarantee) ---- *)
 
 (* largest record length for which EMTState's int32 copies and 2*nsamp+10 do not wrap *)
